@@ -8,6 +8,7 @@ mod codec_engine;
 mod core_engine;
 mod election_engine;
 mod persist_engine;
+mod rest_engine;
 mod session_engine;
 mod util;
 
@@ -28,6 +29,7 @@ fn main() {
         "cluster" => cluster_engine::main(&args[2], &args[3]),
         "client" => client_engine::main(&args[2], &args[3]),
         "election" => election_engine::main(&args[2], &args[3]),
+        "rest" => rest_engine::main(&args[2], &args[3]),
         other => {
             eprintln!("unknown engine {other}");
             std::process::exit(2);
